@@ -422,7 +422,26 @@ fn base_frame(st: &mut Station, cfg: &Cfg, r: &mut Rng) -> Vec<u8> {
 fn gen_nearmiss(st: &mut Station, cfg: &Cfg, r: &mut Rng) -> Item {
     let mut f = base_frame(st, cfg, r);
     let n = f.len();
-    let what = match r.below(8) {
+    let what = match r.below(9) {
+        8 => {
+            // wrong preamble, but the checksum is computed over it (a sender with a different sync byte)
+            let v = match r.below(3) {
+                0 => *r.pick(&[0xD7u8, 0xDB, 0xDF, 0xF3, 0xF7, 0xFB, 0xFF, 0xD2, 0x53, 0x93, 0xC3, 0xD1]),
+                _ => {
+                    let mut v = r.below(255) as u8;
+                    if v >= 0xD3 {
+                        v += 1;
+                    }
+                    v
+                }
+            };
+            f[0] = v;
+            let c = crc24q(&f[..n - 3]);
+            f[n - 3] = (c >> 16) as u8;
+            f[n - 2] = (c >> 8) as u8;
+            f[n - 1] = c as u8;
+            "preamble_crc_ok"
+        }
         0 => {
             let bit = r.below(24) as usize;
             f[n - 3 + bit / 8] ^= 0x80 >> (bit % 8);
